@@ -89,8 +89,14 @@ Fixpoint merge_lines (l : list seg) : list seg :=
       end
   | [] => []
   end.
+(** merging is decided in the geometry's own coordinates (exact for the specification; a singular or nearly singular matrix makes
+    everything collinear after the transformation, where Go's rounded numbers and the exact ones would be merged differently) *)
+Definition xform (m : mat) (s : seg) : seg :=
+  mkSeg (skind s) (mdot m (sp0 s)) (if (skind s =? 2)%Z || (skind s =? 3)%Z then mdot m (sc1 s) else sc1 s)
+        (if (skind s =? 3)%Z then mdot m (sc2 s) else sc2 s) (mdot m (sp1 s)) (sarc s).
 Definition nz_segs (m : mat) (g : list gcmd) : list seg :=
-  merge_lines (filter (fun s => negb (zero_line s)) (segs_of m (0, 0) (0, 0) g)).
+  filter (fun s => negb (zero_line s))
+         (map (xform m) (merge_lines (filter (fun s => negb ((skind s =? 1)%Z && peq (sp0 s) (sp1 s))) (segs_of mid (0, 0) (0, 0) g)))).
 
 (** the same ellipse has several (rx, ry, rotation) descriptions: canonical form rx >= ry, rotation in [0,180), 0 for circles *)
 Definition arc_norm (a : Q * Q * Q * bool * bool) : Q * Q * Q * bool * bool :=
